@@ -290,13 +290,11 @@ func (gs GenesisState) ValidateOperatorUSDValues(operators map[string]struct{}, 
 				operatorUSDValue,
 			)
 		}
+		// OptIn writes the operator's (zero) entry at once, the AVS's own USD value is first
+		// written at the AVS's next epoch end: until then the AVS's value reads as zero.
 		avsUSDValue, ok := avsUSDValues[avsAddress]
 		if !ok {
-			return errorsmod.Wrapf(
-				ErrInvalidGenesisData,
-				"the parsed AVS address should be in the avsUSDValues map, AVS: %s, avsUSDValues: %+v",
-				avsAddress, avsUSDValues,
-			)
+			avsUSDValue = DecValueField{Amount: sdkmath.LegacyZeroDec()}
 		}
 
 		if operatorUSDValue.OptedUSDValue.TotalUSDValue.GT(avsUSDValue.Amount) {
